@@ -1,6 +1,6 @@
 (* Lockset obligation for workqueue/queue.go (property C14), over the skeleton REGENERATED from the Go source
    on every run (Gen/WQSkeleton_gen.v): the accesses to Queue.errorSubscribers — appended in Errors(), copied by the
-   error-monitor goroutine that start() spawns (pseudo-method "start.func2", Go's own name for that closure) — and
+   error-monitor goroutine that start() spawns (an entry of its own: "NewQueue.go1.go1") — and
    the mode of errSubScriberMux held around them.  Every other method of Queue appears with the sections in which it
    touches the slice (none).  On the pinned code (before fix F14) the monitor ranged over the slice without the
    mutex and this file does not compile. *)
@@ -13,14 +13,29 @@ Local Open Scope string_scope.
 Theorem wq_err_race_free : race_free wq_err_skeleton.
 Proof. apply lockset_sound. vm_compute. reflexivity. Qed.
 
-(* non-vacuity: the two parties are really there, the writer and the reader, both under the mutex *)
+(* non-vacuity: the two parties are really there — the writer Errors, and some OTHER entry (the monitor goroutine:
+   "NewQueue.go1.go1", the first goroutine started by the goroutine `go wq.start()` of the constructor) that reads the
+   slice — both under the mutex.  Stated without the goroutine's name, which depends on the order of go statements. *)
 Example wq_err_parties :
   In ("Errors", [Sec [("errSubScriberMux", Wr)]
                      [{| loc := "errorSubscribers"; wr := false |}; {| loc := "errorSubscribers"; wr := true |}]])
      wq_err_skeleton
-  /\ In ("start.func2", [Sec [("errSubScriberMux", Wr)] [{| loc := "errorSubscribers"; wr := false |}]])
-        wq_err_skeleton.
-Proof. split; cbv [wq_err_skeleton]; simpl; repeat (first [left; reflexivity | right]). Qed.
+  /\ exists name, name <> "Errors"
+        /\ In (name, [Sec [("errSubScriberMux", Wr)] [{| loc := "errorSubscribers"; wr := false |}]]) wq_err_skeleton.
+Proof.
+  split; [cbv [wq_err_skeleton]; simpl; repeat (first [left; reflexivity | right])|].
+  assert (H : existsb (fun ms => negb (String.eqb (fst ms) "Errors") &&
+                match snd ms with
+                | [Sec [(l, Wr)] [a]] => String.eqb l "errSubScriberMux" && String.eqb (loc a) "errorSubscribers" && negb (wr a)
+                | _ => false
+                end) wq_err_skeleton = true) by (vm_compute; reflexivity).
+  apply existsb_exists in H as ([n secs] & Hin & H). simpl in H. apply andb_prop in H as [Hn H].
+  exists n. split.
+  - intros ->. rewrite String.eqb_refl in Hn. discriminate.
+  - destruct secs as [|[[|[l [|]] [|]] [|[la wa] [|]]|] [|]]; try discriminate.
+    apply andb_prop in H as [H Hw]. apply andb_prop in H as [H1 H2].
+    apply String.eqb_eq in H1, H2. simpl in *. subst. destruct wa; [discriminate|]. exact Hin.
+Qed.
 
 (* every access to the slice anywhere in queue.go happens with the mutex held *)
 Example wq_err_all_locked :
